@@ -643,8 +643,12 @@ func (g *gpass) wrapperExit(s *vc.State, f *vc.Frame, kind string, results []vc.
 	// no user function is invoked on the calling goroutine
 	userOnCaller := 0
 	for _, ev := range s.Events {
-		if (ev.Kind == "call" || ev.Kind == "call-panicked") && strings.HasPrefix(ev.Name, "dynamic _") {
-			userOnCaller++
+		if ev.Kind == "call" || ev.Kind == "call-panicked" {
+			if call, ok := ev.Instr.(*ssa.Call); ok {
+				if _, isUser := hoistedCallee(&call.Call); isUser {
+					userOnCaller++
+				}
+			}
 		}
 	}
 	B("noUserFunctionOnCaller", vc.BoolLit(userOnCaller == 0))
